@@ -57,6 +57,7 @@ class Recorder:
         import jax
         self._orig = jax.random.choice
         rec = self
+        _STATE["recorder"] = self
 
         def choice(key, a, shape=(), replace=True, p=None, axis=0):
             import jax.numpy as jnp
@@ -78,6 +79,7 @@ class Recorder:
     def __exit__(self, *a):
         import jax
         jax.random.choice = self._orig
+        _STATE["recorder"] = None
         return False
 
 
